@@ -373,6 +373,15 @@ def map(
         + zgrid.reshape(zgrid.shape + (1,)) * n_array
     )
 
+    # Stored positions are rounded numbers: cells sharing a face can be a few ulp
+    # apart, and a pixel falling on that face belongs to either of them, not to none
+    rounding = 8.0 * np.finfo(np.float64).eps * max(
+        np.abs(c.values).max()
+        for vec in (position, xyz)
+        for c in (vec.x, vec.y, vec.z)
+        if c is not None
+    )
+
     # Evaluate the values of the data layers at the grid positions
     div = dx.to(datadx.unit).magnitude
     binned = evaluate_on_grid(
@@ -387,7 +396,7 @@ def map(
             coords.z.values / div if coords.z is not None else None
         ),
         cell_values=np.array(to_binning),
-        cell_sizes=datadx.values / div,
+        cell_sizes=(datadx.values + rounding) / div,
         grid_lower_edge_in_new_basis_x=xmin / div,
         grid_lower_edge_in_new_basis_y=ymin / div,
         grid_lower_edge_in_new_basis_z=zmin / div,
